@@ -137,7 +137,7 @@ def parse_tags(out):
     """lines of the form `TAG n` printed by idtac in enclosure goals -> {'OK': [...], 'BAD': [...]}"""
     r = {'OK': [], 'BAD': []}
     for line in out.splitlines():
-        m = re.match(r'^\s*(OK|BAD)\s+(\d+)\s*$', line)
+        m = re.match(r'^\s*(OK|BAD)\s+"?(\d+)"?\s*$', line)
         if m:
             r[m.group(1)].append(int(m.group(2)))
     return r
@@ -385,3 +385,62 @@ def finish(ctx, proofs, level_text=''):
         print(l)
     sys.stdout.flush()
     return 1 if nviol else 0
+
+
+# ---------------------------------------------------------------- enclosure route
+ENC_HEADER = ('From Coq Require Import Reals List ZArith.\nFrom Interval Require Import Tactic.\n'
+              'From PV Require Import Base.Num Base.Enclose %s.\nImport ListNotations.\nOpen Scope R_scope.\n'
+              '#[local] Remove Hints NumQ NumZ : typeclass_instances.\n')
+
+
+def run_enclosure(pid, imports, cases, prec=200, per_file=40, timeout_goal=120, tag='enc'):
+    """cases: list of dict(idx=int, expr=str (Coq term : list R), comps=[(i, impl_value, tol)]).
+    Phase 1 proves  /\\_i Rabs (nth i expr 0 - v_i) <= tol_i  with `enclose`.
+    Phase 2 (only for cases phase 1 could not prove) tries to prove, component by component, that
+    the distance EXCEEDS the tolerance.  Returns dict(ok=[idx], bad=[(idx, comp)], undecided=[idx]).
+    Only a proved excess counts as a disagreement; an undecided case (e.g. an input exactly on a
+    branch boundary of the model) is reported as such and never as a mismatch."""
+    hdr = ENC_HEADER % imports
+    byidx = {c['idx']: c for c in cases}
+
+    def goal1(c):
+        conj = ' /\\ '.join('Rabs (nth %d r 0 - %s) <= %s' % (i, rlit(v), rlit(t)) for i, v, t in c['comps'])
+        return ('Goal let r := %s in %s.\nProof. first [ timeout %d (solve [ enclose %d%%positive ]); idtac "OK" "%d" | idtac "BAD" "%d" ]. Abort.\n'
+                % (c['expr'], conj, timeout_goal, prec, c['idx'], c['idx']))
+    files = []
+    for k, sh in enumerate([cases[j:j + per_file] for j in range(0, len(cases), per_file)]):
+        files.append(('%s1_%03d' % (tag, k), hdr + ''.join(goal1(c) for c in sh)))
+    res = run_case_files(pid, files, timeout=per_file * timeout_goal + 300)
+    ok, notok = set(), set()
+    broken = []
+    for name, (rc, out) in res.items():
+        t = parse_tags(out)
+        ok.update(t['OK'])
+        notok.update(t['BAD'])
+        if rc != 0:
+            broken.append((name, out[-800:]))
+    seen = ok | notok
+    missing = [c['idx'] for c in cases if c['idx'] not in seen]
+    notok.update(missing)
+    bad, undecided = [], []
+    if notok:
+        goals = []
+        enc = {}
+        for idx in sorted(notok):
+            c = byidx[idx]
+            for (i, v, t) in c['comps']:
+                code = idx * 1000 + i
+                enc[code] = (idx, i)
+                goals.append('Goal let r := %s in %s < Rabs (nth %d r 0 - %s).\nProof. first [ timeout %d (solve [ enclose %d%%positive ]); idtac "OK" "%d" | idtac "BAD" "%d" ]. Abort.\n'
+                             % (c['expr'], rlit(t), i, rlit(v), timeout_goal, prec, code, code))
+        files2 = [('%s2_%03d' % (tag, k), hdr + ''.join(goals[j:j + per_file])) for k, j in enumerate(range(0, len(goals), per_file))]
+        res2 = run_case_files(pid, files2, timeout=per_file * timeout_goal + 300)
+        proved = set()
+        for name, (rc, out) in res2.items():
+            proved.update(parse_tags(out)['OK'])
+        badidx = set()
+        for code in proved:
+            bad.append(enc[code])
+            badidx.add(enc[code][0])
+        undecided = sorted(notok - badidx)
+    return dict(ok=sorted(ok), bad=sorted(bad), undecided=undecided, broken=broken)
